@@ -31,6 +31,12 @@ def model(c, runs):
                      cfg=cfg_text(constants=comb, invariants=INVS)))
     jobs.append(dict(name="sensitivity: combine_credits (moved stderr bytes counted in in_window_sofar, credited again when read)", module="Channel",
                      expect="NoOverGrant", cfg=cfg_text(constants=dict(comb, Mut="combine_credits"), invariants=INVS)))
+    # who opened the channel x who sends: "A" is the opener; the accepting side "B" sends under the limits of A's CHANNEL_OPEN
+    acc = dict(BASE, UsersA={"a1"}, OpsA={"recv", "recv_err", "send"}, UsersB={"b1"}, OpsB={"send", "send_err", "sendall"}, MaxCalls=2, SendN=4)
+    jobs.append(dict(name="the accepting side sends (limits from the peer's CHANNEL_OPEN), the opener reads and sends", module="Channel",
+                     cfg=cfg_text(constants=acc, invariants=INVS)))
+    jobs.append(dict(name="sensitivity: open_limit_shadowed (accepting side keeps its own maximum packet size)", module="Channel",
+                     expect="PacketBound", cfg=cfg_text(constants=dict(acc, Mut="open_limit_shadowed"), invariants=INVS)))
     small = dict(BASE, OpsA={"sendall", "send_err"}, OpsB={"recv", "recv_err"}, SendN=4)
     for mut, inv in (("no_decrement", "WindowRespected"), ("ignore_maxpkt", "PacketBound"), ("over_ack", "NoOverGrant")):
         jobs.append(dict(name="sensitivity: " + mut, module="Channel", expect=inv, cfg=cfg_text(constants=dict(small, Mut=mut), invariants=INVS)))
@@ -95,6 +101,15 @@ def programs(rnd, n):
 
 # stderr data buffered BEFORE set_combine_stderr(True): recv_stderr(1) returns once it is there, the rest is moved to stdout
 FIXED = [
+    # which side opened the channel x who sends: the limits are set by the real Transport.open_channel /
+    # _parse_channel_open_success (opener A) and Transport._parse_channel_open (accepting side B), not by the harness
+    {"open": {"A": "local", "B": "peer"}, "pkt": {"A": 4096, "B": 32768}, "win": {"A": 40000, "B": 2097152},
+     "threads": {"b1": [("send", 20000), ("send_err", 20000)], "a1": [("recv", 65536), ("send", 40000)]}},
+    {"open": {"A": "local", "B": "peer"}, "pkt": {"A": 8192, "B": 4096}, "win": {"A": 32768, "B": 32768},
+     "threads": {"b1": [("sendall", 20000)], "b2": [("sendall_err", 9000)], "a1": [("sendall", 9000)], "dA_out": [("recv_loop", 4096)],
+                 "dA_err": [("recv_err_loop", 4096)]}},
+    {"open": {"A": "peer", "B": "local"}, "pkt": {"A": 32768, "B": 5000}, "win": {"A": 65536, "B": 65536},
+     "threads": {"a1": [("send", 30000), ("send_err", 30000)], "b1": [("send", 40000)]}},
     {"threads": {"a1": [("send_err", 3000)], "b1": [("recv_err", 1), ("combine",), ("recv", 65536)]}},
     {"threads": {"a1": [("send_err", 20000), ("send", 5000)], "b1": [("recv_err", 100), ("combine",), ("recv", 4096), ("recv", 65536)]}},
     {"threads": {"a1": [("sendall_err", 30000)], "a2": [("sendall", 30000)], "b1": [("recv_err", 1), ("combine",)], "dB_out": [("recv_loop", 8192)]}},
@@ -114,9 +129,13 @@ def run(c):
     t0 = time.time()
     nb, differ = model(c, runs)
     laps = {"model+replay_s": round(time.time() - t0, 1)}
-    progs = [{"par": {"win": {"A": 32768, "B": 32768}, "pkt": {"A": 32768, "B": 32768}, "tmo": {"A": "block", "B": "block"}},
-              "threads": p["threads"]} for p in FIXED]
-    progs += programs(rnd, 12 if c.quick else 250)
+    progs = []
+    for p in FIXED:
+        par = {"win": p.get("win", {"A": 32768, "B": 32768}), "pkt": p.get("pkt", {"A": 32768, "B": 32768}), "tmo": {"A": "block", "B": "block"}}
+        if "open" in p:
+            par["open"] = p["open"]
+        progs.append({"par": par, "threads": p["threads"]})
+    progs += programs(rnd, 10 if c.quick else 250)
     deadline = time.time() + (120 if c.quick else 600)   # safety net only: the schedule counts bound the exploration, so the result does not depend on machine load
     explored = dc.explore_into(runs, c, progs, 6 if c.quick else 150, 4 if c.quick else 40, deadline, bound=1 if c.quick else 2,
                                max_steps=2500, gap_runs=6)
